@@ -83,7 +83,10 @@ static int nevents, cap_events;
 static char *sched_buf;
 static size_t sched_len, sched_cap;
 
-static int policy;               /* 0 random, 1 pct, 2 replay */
+static int policy;               /* 0 random, 1 pct, 2 replay, 3 prefix then non-preemptive */
+static int trace_enabled;         /* record the enabled set of every step (for systematic exploration) */
+static uint32_t *en_masks; static long n_en_masks, cap_en_masks;
+static int last_tid = -1;
 static uint64_t rng_state = 88172645463325252ULL;
 static int pct_depth;
 static long pct_cp[16];
@@ -258,7 +261,21 @@ static void pick_next(void)
 	if (ndone == nthreads) { end_run(VS_OK); return; }
 	T *n = NULL;
 	int flag = 0;
-	if (policy == 2) {
+	if (trace_enabled) {
+		uint32_t m = 0;   /* the candidates of this step: enabled, not spinning (all enabled if none) */
+		for (int i = 0; i < (nn ? nn : ne); i++) m |= 1u << (nn ? ns : en)[i]->tid;
+		if (n_en_masks == cap_en_masks) {
+			cap_en_masks = cap_en_masks ? cap_en_masks * 2 : 1024;
+			en_masks = (uint32_t *)realloc(en_masks, sizeof(uint32_t) * cap_en_masks);
+		}
+		en_masks[n_en_masks++] = m;
+	}
+	int use_replay = (policy == 2);
+	if (policy == 3) {
+		while (replay_pos && *replay_pos == ' ') replay_pos++;
+		use_replay = replay_pos && *replay_pos;
+	}
+	if (use_replay) {
 		while (replay_pos && *replay_pos == ' ') replay_pos++;
 		if (!replay_pos || !*replay_pos) { end_run(VS_REPLAY_DIVERGED); return; }
 		char *e;
@@ -290,7 +307,12 @@ static void pick_next(void)
 			if (!nn) {
 				if (++forced_spin > 3000) { end_run(VS_LIVELOCK); return; }
 			}
-			if (policy == 1) {
+			if (policy == 3) {
+				/* non-preemptive continuation: keep running the last thread while it can */
+				n = NULL;
+				for (int i = 0; i < cnt; i++) if (set[i]->tid == last_tid) n = set[i];
+				if (!n) { n = set[0]; for (int i = 1; i < cnt; i++) if (set[i]->tid < n->tid) n = set[i]; }
+			} else if (policy == 1) {
 				for (int k = 0; k < pct_depth; k++)
 					if (pct_cp[k] == steps) {
 						/* demote the thread that ran last */
@@ -312,6 +334,7 @@ static void pick_next(void)
 	}
 	n->flag_spurious = (flag == 1);
 	n->steps_taken++;
+	last_tid = n->tid;
 	sched_add(n->tid, flag);
 	n->go = 1;
 	__real_pthread_cond_signal(&n->cv);
@@ -376,6 +399,7 @@ void vs_reset(void)
 	max_steps = 20000;
 	policy = 0;
 	free(replay_str); replay_str = NULL; replay_pos = NULL;
+	trace_enabled = 0; n_en_masks = 0; last_tid = -1;
 }
 
 void vs_reg(const char *name, void *ptr, size_t size, size_t elem)
@@ -424,6 +448,12 @@ void vs_policy_replay(const char *schedule)
 	replay_str = strdup(schedule);
 	replay_pos = replay_str;
 }
+void vs_policy_prefix(const char *schedule)
+{
+	vs_policy_replay(schedule);
+	policy = 3;
+}
+void vs_trace_enabled(int on) { trace_enabled = on; }
 void vs_set_spurious(int c, int v) { cas_permille = c; cv_permille = v; }
 void vs_set_max_steps(long n) { max_steps = n; }
 void vs_kill_after(int tid, long k) { if (tid >= 0 && tid < nthreads) threads[tid]->kill_after = k; }
@@ -471,6 +501,11 @@ const char *vs_status_name(int st)
 void vs_print(FILE *f)
 {
 	fprintf(f, "schedule %s\n", sched_len ? sched_buf : "");
+	if (trace_enabled) {
+		fprintf(f, "#enabled");
+		for (long i = 0; i < n_en_masks; i++) fprintf(f, " %x", en_masks[i]);
+		fprintf(f, "\n");
+	}
 	for (int i = 0; i < nevents; i++) fprintf(f, "%s\n", events[i]);
 	if (status == VS_DEADLOCK) {
 		for (int i = 0; i < nthreads; i++) {
